@@ -168,3 +168,4 @@ M("c05-unfix-nextafter", "C05", "plot/histogram2d.py", "        ymax = max(ymax 
 M("c05-unfix-quantity-limit", "C05", "plot/histogram2d.py", "            limit = limit.to(x.unit).magnitude", "            limit = limit.to(x.unit.units).magnitude", "an explicit limit given as a Quantity raises AttributeError again (the original defect)")
 M("c04-unfix-ndarray-predicate", "C04", "io/hilbert.py", "            if isinstance(func_test, Array):\n                func_test = func_test.values\n            inds = np.argwhere(func_test).ravel()\n", "            inds = np.argwhere(func_test.values).ravel()\n", "position predicates answering with a plain ndarray crash the Hilbert pre-selection again (the original defect)")
 M("c04-unfix-empty-sampling", "C04", "io/hilbert.py", "            if len(inds) == 0:\n                # The selected interval is narrower than the sampling (levelmax > 18):\n                # no pre-selection is possible, all files are read\n                return\n", "", "boxes narrower than the 2**18 sampling raise ValueError again at levelmax > 18 (the original defect)")
+M("c04-unfix-sampling-pad", "C04", "io/hilbert.py", "            pad = half_dxmin + (2.0 * half_dxmin if meta[\"levelmax\"] > 18 else 0.0)\n", "            pad = half_dxmin\n", "the bounding box of a position selection is cut back to the predicate samples again at levelmax > 18 (the original defect)")
